@@ -225,10 +225,18 @@ def _odd_prefixes():
             out[3].append(p + b3)
         if p != "CVSS:4.0/":
             out[4].append(p + b4)
-    for l, r in c04.WRAPS[:8]:
+    # ... and with something at ONE end only (a line read from a file keeps its line break; `$`, `.`
+    # and strip() each treat such characters in their own way), and with a line break inside
+    one_sided = [("", "\n"), ("", "\r\n"), ("", "\r"), ("\n", ""), ("", " "), (" ", ""), ("", "\t"), ("", "\x0b"),
+                 ("", "\x0c"), ("", "\x1c"), ("", "\x85"), ("", "\u2028"), ("", "\u3000"), ("", "\0")]
+    for l, r in c04.WRAPS[:10] + one_sided:
         out[2].append(l + "AV:N/AC:L/Au:N/C:P/I:P/A:P" + r)
         out[3].append(l + "CVSS:3.1/" + b3 + r)
         out[4].append(l + "CVSS:4.0/" + b4 + r)
+    for br in ("\n", "\r\n"):
+        out[2].append("AV:N/AC:L/Au:N" + br + "/C:P/I:P/A:P")
+        out[3].append("CVSS:3.1/AV:N/AC:L/PR:N/UI:N/" + br + "S:U/C:H/I:H/A:H")
+        out[4].append("CVSS:4.0/AV:N/AC:L/AT:N/PR:N/UI:N/VC:H/VI:H" + br + "/VA:H/SC:N/SI:N/SA:N")
     return out
 
 
